@@ -1,16 +1,32 @@
 (* C09 -- blocking nodes never discard; non-blocking nodes never wait.
-   Proved: the probe a non-blocking node uses (can_put of Buffer / Fleet, REGENERATED from source)
+   Proved: in every reachable world of every factory configuration a blocking node has discarded
+   nothing (C09_blocking_never_discards, lifted through every process block of Source, Machine,
+   Splitter, Combiner in theories/Factory/FactoryDisc.v); the probe a non-blocking node uses (can_put of Buffer / Fleet, REGENERATED from source)
    is true exactly when a reservation issued at that instant is granted at once -- so "push if
    there is room, otherwise drop" is decided on the truth; and a sub-process started by
    env.process runs its first block (the reservation) before any other event of the instant
-   (URGENT priority, kernel model).  That blocking branches never reach a discard and that
-   non-blocking nodes push / drop at the ready instant is carried by the executable factory
-   model and compared on every explored factory; not yet a theorem for every configuration. *)
+   (URGENT priority, kernel model).  That non-blocking nodes push / drop at the ready instant
+   (never wait) is carried by the executable factory model and compared on every explored
+   factory; not a theorem for every configuration. *)
 From Coq Require Import List ZArith Bool Arith.
 From FV Require Import SrcFragments Kernel.
 From FV Require StoreB StoreBInv StoreBProps TieB.
+From FV Require World Factory FactoryInv FactoryDisc.
 Import ListNotations.
 Open Scope Z_scope.
+
+(* every configuration (nodes, edges, construction order) whose blocking nodes start with a zero
+   discard counter, every number of kernel steps: a blocking node has discarded nothing, and every
+   node still has its configured blocking flag *)
+Theorem C09_blocking_never_discards :
+  forall nodes edges order n,
+    (forall nd, In nd nodes -> World.nblocking nd = true -> World.ndisc nd = 0%nat) ->
+    forall i, (i < length nodes)%nat ->
+      let nd := World.get_node (FactoryInv.iter_fstep n (Factory.mk_world nodes edges order)) i in
+      World.nblocking nd = World.nblocking (nth i nodes World.node0) /\
+      (World.nblocking nd = true -> World.ndisc nd = 0%nat).
+Proof. exact FactoryDisc.blocking_never_discards. Qed.
+Print Assumptions C09_blocking_never_discards.
 
 Theorem C09_probe_is_exact :
   forall s p pr, StoreB.is_belt (StoreB.s_kind s) = false -> StoreBInv.Inv s -> StoreBProps.NoLost s ->
